@@ -945,6 +945,7 @@ func (p *c14) RunCase(ctx *runner.Ctx) runner.CaseResult {
 		p.heldResults(x, adapt.Adapters[k%2], c14ItemList[k/2], ctx)
 		if k/2 == 0 {
 			p.metadata(x, adapt.Adapters[k%2], ctx)
+			p.inputsUntouched(x, adapt.Adapters[k%2])
 		}
 	default:
 		idx := c - ni*no*2 - ni*2
